@@ -239,6 +239,10 @@ def check(ctx, rep):
                         key=f"R06m|{f_.qualname}|{c_.func.attr}")
     if not n_body:
         rep.fail("R06m", "request body reads", detail="no protocol reads a request body")
+    rep.rule("R06o", "= R02h: request lines are claimed by the protocol whose documented shape they have - a plain Gopher search whose string begins "
+             "with `!`, `+` or `$` stays a search (it is not a Gopher+ request)", floor=1)
+    from .c02 import classification_obligations
+    classification_obligations(ctx, rep, "R06o")
     rep.rule("R06n", "the search string reaches the handler as the client typed it, whichever protocol carried it: Gemini (plain percent-encoding, "
              "`+` literal) and HTTP (form encoding) handle() evaluated on 5 strings up to the handler look-up", floor=2)
     search_string_evaluation(ctx, rep, "R06n")
